@@ -252,6 +252,31 @@ func FormatRules(p *load.Program, tb *kinds.Table, pres *FieldPresence, pf *Prin
 
 				}
 			}
+			// ---- a token rebuilt from the node's whole Value replaces every token of the node
+			for _, ev := range evs {
+				if ev.kind != "tok-new" || ev.arg != "Value" {
+					continue
+				}
+				for _, g := range k.Fields {
+					if g.Class != kinds.Tok || g.Name == ev.field || facts.isNil[g.Name] {
+						continue
+					}
+					handled := false
+					for _, e2 := range evs {
+						if e2.field == g.Name && (e2.kind == "tok-nil" || e2.kind == "tok-new") {
+							handled = true
+						}
+					}
+					for tie := range pres.CoSet[k.Name+"."+g.Name] {
+						if facts.isNil[tie] {
+							handled = true // g only exists together with a token that is absent on this path
+						}
+					}
+					if !handled {
+						add(once, k.Name+"/"+ev.field+"+"+g.Name, fmt.Sprintf("%s is rebuilt from the node's whole Value while %s, which holds part of that text in parsed trees, is kept: the text is printed twice", ev.field, g.Name))
+					}
+				}
+			}
 			// ---- lexemes agree with the printer's defaults
 			for _, ev := range evs {
 				if ev.kind != "tok-new" || ev.lit == "" {
@@ -369,13 +394,16 @@ func (im *Impl) fmtStmt(st ast.Stmt, recv, n types.Object, evs *[]fmtEvent) stri
 				if name, ok := im.methodCall(call, recv); ok {
 					switch name {
 					case "newToken":
-						lit := ""
+						lit, arg := "", ""
 						if len(call.Args) == 2 {
 							if c, ok := im.constBytes(call.Args[1]); ok {
 								lit = c
 							}
+							if vf, ok := im.fieldOf(call.Args[1], n); ok && vf == "Value" {
+								arg = "Value"
+							}
 						}
-						*evs = append(*evs, fmtEvent{kind: "tok-new", field: f, lit: lit, pos: st.Pos()})
+						*evs = append(*evs, fmtEvent{kind: "tok-new", field: f, lit: lit, arg: arg, pos: st.Pos()})
 						return ""
 					case "newSemicolonTkn":
 						*evs = append(*evs, fmtEvent{kind: "tok-semi", field: f, lit: ";", pos: st.Pos()})
